@@ -139,6 +139,23 @@ fn main() {
     }
     sum.wall_s = (simlibc::real_now_ns() - t0) as f64 / 1e9;
     common::cleanup();
+    // scratch directories carry the process id and a driver-chosen parent: keep them out of everything that is
+    // compared between runs (messages, facts, class keys)
+    {
+        let base = common::scratch_base();
+        let parent = std::env::var("VERIF_SCRATCH").unwrap_or_else(|_| "/dev/shm".to_string());
+        let clean = |t: &str| t.replace(&base, "<scratch>").replace(&parent, "<scratch-parent>");
+        for v in sum.violations.iter_mut() {
+            v.message = clean(&v.message);
+            let facts: Vec<(String, String)> = v.facts.iter().map(|(k, x)| (k.clone(), clean(x))).collect();
+            v.facts = facts.into_iter().collect();
+        }
+        let classes: Vec<(String, u64)> = sum.violation_classes.iter().map(|(k, n)| (clean(k), *n)).collect();
+        sum.violation_classes = classes.into_iter().collect();
+        for n in sum.notes.iter_mut() {
+            *n = clean(n);
+        }
+    }
     let text = serde_json::to_string(&sum).unwrap();
     {
         let _b = simlibc::Bypass::new();
